@@ -81,6 +81,29 @@ var pool = []poolItem{
 	{"chan", `(let ((c (make-channel 1))) (channel-close c) c)`},
 	{"time", `(make-time 2020 1 2)`},
 	{"bag", `(make-bag "{a:1}")`},
+	// one object of every remaining kind of Lisp object slip implements in go (go types with a Hierarchy method)
+	{"complex", `#C(1 2)`},
+	{"lng", `1.5L0`},
+	{"octet", `(coerce 1 'octet)`},
+	{"sbyte", `(coerce -1 'signed-byte)`},
+	{"ubyte", `(coerce 1 'unsigned-byte)`},
+	{"bit", `(bit #*101 0)`},
+	{"bcast0", `(make-broadcast-stream)`},
+	{"bcast", `(make-broadcast-stream (make-string-output-stream))`},
+	{"concat0", `(make-concatenated-stream)`},
+	{"concat", `(make-concatenated-stream (make-string-input-stream "ab") (make-string-input-stream "(c)"))`},
+	{"echo", `(make-echo-stream (make-string-input-stream "ab") (make-string-output-stream))`},
+	{"synonym", `(make-synonym-stream '*standard-output*)`},
+	{"twoway", `(make-two-way-stream (make-string-input-stream "ab") (make-string-output-stream))`},
+	{"rstate", `(make-random-state)`},
+	{"mutex", `(make-mutex)`},
+	{"bagpath", `(make-bag-path "a.b")`},
+	{"uuid", `(make-uuid)`},
+	{"struct", `(make-c09-st :a 1)`},
+	{"generic", `(function c09-generic)`},
+	{"method", `(find-method (function c09-generic) nil '(fixnum))`},
+	{"biclass", `(find-class 'fixnum)`},
+	{"condclass", `(find-class 'error)`},
 }
 
 var poolIndex = func() map[string]int {
@@ -110,6 +133,13 @@ func ensureGlobals(scope *slip.Scope) {
 	}
 	if slip.FindClass("c09-class") == nil {
 		ev.MustEval(scope, `(defclass c09-class () ((a :initarg :a :initform 1)))`)
+	}
+	if slip.FindFunc("make-c09-st") == nil {
+		ev.MustEval(scope, `(defstruct c09-st a b)`)
+	}
+	if fi := slip.FindFunc("c09-generic"); fi == nil || ev.Eval(scope, `(find-method (function c09-generic) nil '(fixnum))`).Kind != ev.Value {
+		ev.MustEval(scope, `(defgeneric c09-generic (x))`)
+		ev.MustEval(scope, `(defmethod c09-generic ((x fixnum)) x)`)
 	}
 	if slip.FindClass("c09-flavor") == nil {
 		ev.MustEval(scope, `(defflavor c09-flavor ((a 1)) () :gettable-instance-variables :settable-instance-variables)`)
